@@ -39,6 +39,7 @@ from .aggregate_states import VibronicState
 #from .molecules import Molecule
 from ..core.managers import Manager
 from ..core.managers import eigenbasis_of
+from ..core.managers import energy_units
 from ..core.saveable import Saveable
 
 from .opensystem import OpenSystem
@@ -1350,8 +1351,21 @@ class AggregateBase(UnitsManaged, Saveable, OpenSystem):
             Approximation used in the generation of vibrational state.
 
         """
-        manager = Manager()
-        manager.set_current_units("energy", "int")
+        # everything is built in internal units; the units active for 
+        # the caller are restored also when the build fails
+        with energy_units("int"):
+            self._build(mult=mult, sbi_for_higher_ex=sbi_for_higher_ex,
+                        vibgen_approx=vibgen_approx, Nvib=Nvib,
+                        vibenergy_cutoff=vibenergy_cutoff, fem_full=fem_full,
+                        el_blocks=el_blocks)
+
+
+    def _build(self, mult=1, sbi_for_higher_ex=False,
+              vibgen_approx=None, Nvib=None, vibenergy_cutoff=None,
+              fem_full=False, el_blocks=False):
+        """Builds the aggregate (called by `build` in internal units)
+        
+        """
 
         # maximum multiplicity of excitons handled by this aggregate
         self.mult = mult
@@ -1724,8 +1738,6 @@ class AggregateBase(UnitsManaged, Saveable, OpenSystem):
             pass
 
         self._built = True
-
-        manager.unset_current_units("energy")
 
 
     def rebuild(self, mult=1, sbi_for_higher_ex=False,
